@@ -832,6 +832,23 @@ def load():
             for t in (n.targets if isinstance(n, ast.Assign) else [n.target]):
                 if isinstance(t, ast.Name) and t.id in ("get_grid_search_neighbors", "_get_fevals_data", "add_and_update_gp", "local_gp_fitting", "udist"):
                     bad(f"{t.id} is re-bound by an assignment", n, REL_GP)
+    for need in ("get_grid_search_neighbors", "_get_fevals_data", "add_and_update_gp", "local_gp_fitting"):
+        if fs[need].decorator_list:
+            bad(f"{need} is decorated", fs[need], need)
+        inner = [n for n in ast.walk(fs[need]) if isinstance(n, (ast.FunctionDef, ast.AsyncFunctionDef, ast.Lambda, ast.Global, ast.Nonlocal)) and n is not fs[need]]
+        if inner and need != "local_gp_fitting":
+            bad(f"{need} contains a nested function / lambda / global declaration", inner[0], need)
+    # bads.py must bind the two entry points from THIS module, under their own names, exactly once, and never re-bind them
+    imps = [("pybads.bads.gaussian_process_train" if (n.module, n.level) == ("gaussian_process_train", 1) else ("." * n.level + (n.module or "")), a.name, a.asname)
+            for n in ast.walk(tb) if isinstance(n, ast.ImportFrom) for a in n.names
+            if (a.asname or a.name) in ("local_gp_fitting", "add_and_update_gp")]
+    if sorted(imps) != [("pybads.bads.gaussian_process_train", "add_and_update_gp", None), ("pybads.bads.gaussian_process_train", "local_gp_fitting", None)]:
+        bad(f"bads.py binds local_gp_fitting / add_and_update_gp as {imps}", None, REL_BADS)
+    for n in ast.walk(tb):
+        if isinstance(n, (ast.FunctionDef, ast.ClassDef)) and n.name in ("local_gp_fitting", "add_and_update_gp"):
+            bad(f"{n.name} is re-defined in bads.py", n, REL_BADS)
+        if isinstance(n, ast.Name) and isinstance(n.ctx, (ast.Store, ast.Del)) and n.id in ("local_gp_fitting", "add_and_update_gp"):
+            bad(f"{n.id} is re-bound in bads.py", n, REL_BADS)
     imp = [a for n in tg.body if isinstance(n, ast.ImportFrom) for a in n.names if (a.asname or a.name) == "udist"]
     if len(imp) != 1 or imp[0].name != "udist":
         bad("udist is not imported exactly once under its own name", None, REL_GP)
